@@ -10,6 +10,7 @@ from torch import Tensor
 from linear_operator.operators._linear_operator import IndexType, LinearOperator
 from linear_operator.operators.block_linear_operator import BlockLinearOperator
 
+from linear_operator.utils.broadcasting import _matmul_broadcast_shape
 from linear_operator.utils.memoize import cached
 
 
@@ -201,6 +202,9 @@ class BlockDiagLinearOperator(BlockLinearOperator, metaclass=_MetaBlockDiagLinea
         other: Union[Float[Tensor, "*batch2 N P"], Float[Tensor, "*batch2 N"], Float[LinearOperator, "*batch2 N P"]],
     ) -> Union[Float[Tensor, "... M P"], Float[Tensor, "... M"], Float[LinearOperator, "... M P"]]:
         from linear_operator.operators.diag_linear_operator import DiagLinearOperator
+
+        # the special cases below reshape / multiply the internal tensors, which would accept incompatible operands
+        _matmul_broadcast_shape(self.shape, other.shape)
 
         # this is trivial if we multiply two BlockDiagLinearOperator with matching block sizes
         if isinstance(other, BlockDiagLinearOperator) and self.base_linear_op.shape == other.base_linear_op.shape:
